@@ -497,31 +497,41 @@ func run(r *ev.Run, tier, replay string) {
 		r.Set("states", 1)
 		r.Set("transitions", 1)
 	} else {
-		res, err := tlc.Run(tlc.Options{
-			SpecDir: filepath.Join(ev.Root(), "spec"), Module: "GluonSeqSet", Cfg: cfg,
-			Workers: 8, Timeout: 20 * time.Minute, KeepOutput: true,
-			OnJSON: func(raw []byte) {
-				var c tcase
-				if err := json.Unmarshal(raw, &c); err == nil {
-					cases = append(cases, &c)
-				}
-			},
-		})
-		if err != nil {
-			r.Machinery("tlc: %v", err)
-			return
+		cfgs := []string{cfg}
+		if tier == "quick" {
+			// sets of two ranges over a smaller number domain (overlaps, duplicates, mixed order)
+			cfgs = append(cfgs, filepath.Join(ev.Root(), "spec", "cfg", "GluonSeqSet.quick2.cfg"))
 		}
-		if res.Violated != "" || res.Error != "" || !res.Finished || res.TimedOut {
-			r.Machinery("TLC on GluonSeqSet did not finish cleanly: violated=%q error=%q timeout=%v\n%s", res.Violated, res.Error, res.TimedOut, tail(res.Output))
-			return
+		var states, transitions int64
+		for _, cf := range cfgs {
+			before := len(cases)
+			res, err := tlc.Run(tlc.Options{
+				SpecDir: filepath.Join(ev.Root(), "spec"), Module: "GluonSeqSet", Cfg: cf,
+				Workers: 8, Timeout: 20 * time.Minute, KeepOutput: true,
+				OnJSON: func(raw []byte) {
+					var c tcase
+					if err := json.Unmarshal(raw, &c); err == nil {
+						cases = append(cases, &c)
+					}
+				},
+			})
+			if err != nil {
+				r.Machinery("tlc: %v", err)
+				return
+			}
+			if res.Violated != "" || res.Error != "" || !res.Finished || res.TimedOut {
+				r.Machinery("TLC on GluonSeqSet (%s) did not finish cleanly: violated=%q error=%q timeout=%v\n%s", cf, res.Violated, res.Error, res.TimedOut, tail(res.Output))
+				return
+			}
+			if int64(len(cases)-before) != res.Distinct {
+				r.Machinery("TLC printed %d cases but found %d states", len(cases)-before, res.Distinct)
+				return
+			}
+			states += res.Distinct
+			transitions += res.Generated
 		}
-		if int64(len(cases)) != res.Distinct {
-			r.Machinery("TLC printed %d cases but found %d states", len(cases), res.Distinct)
-			return
-		}
-		r.Set("states", res.Distinct)
-		r.Set("transitions", res.Generated)
-		r.Set("tlc_wall_s", res.Wall.Seconds())
+		r.Set("states", states)
+		r.Set("transitions", transitions)
 	}
 	sort.SliceStable(cases, func(i, j int) bool { return cases[i].N < cases[j].N })
 
@@ -547,12 +557,16 @@ func run(r *ev.Run, tier, replay string) {
 
 	// sampling rates of the view-destroying commands
 	mutRate := 1.0
-	if len(cases) > 3000 {
-		mutRate = 3000.0 / float64(len(cases))
-	}
 	copyRate := 1.0
-	if len(cases) > 12000 {
-		copyRate = 12000.0 / float64(len(cases))
+	mutCap, copyCap := 3000.0, 12000.0
+	if tier == "quick" {
+		mutCap, copyCap = 1200.0, 3000.0
+	}
+	if float64(len(cases)) > mutCap {
+		mutRate = mutCap / float64(len(cases))
+	}
+	if float64(len(cases)) > copyCap {
+		copyRate = copyCap / float64(len(cases))
 	}
 	counts := map[string]int64{}
 	lastCmd := ""
